@@ -180,6 +180,11 @@ class Gen:
             has_arg = r.random() < 0.6
             body = self.items({"arg": has_arg, "macro_level": i}, 1, r.randrange(1, 4))
             self.macros.append(("m%d" % i, has_arg, body))
+        # a macro whose body fails in an intermediate pass only (see below)
+        transient = bool(self.feat.get("transient")) and not self.feat.get("no_branch")
+        if transient:
+            self.macros.append(("tm", False, [{"k": "mbranch", "id": self.fresh(), "inline": False, "m": r.choice(sorted(BRANCH)),
+                                               "label": "tmdone", "n": r.randrange(0, 21)}]))
         # segments
         nseg = r.choice([0, 0, 1, 2, 3])
         layout = r.choice(["disjoint", "overlap", "reloc_same_target"])
@@ -203,9 +208,17 @@ class Gen:
                             "items": self.items(env, 1, r.randrange(1, 4))})
             else:
                 top.append(self.stmt(env, 0))
+        if transient:
+            # 50-60 forward references (`jmp fwd` emits nothing in pass 1), then the invocation: in pass 2 the branch inside
+            # the macro body sits 150+ bytes higher but still sees the label value of pass 1 -> "branch too far" in pass 2
+            # only; pass 3 is clean.  The final pass emits what the generator says; only intermediate passes differ.
+            pre = [{"k": "abslabel", "id": self.fresh(), "inline": False, "label": "@fwd", "m": "jmp"} for _ in range(r.randrange(50, 61))]
+            pre.append({"k": "call", "id": self.fresh(), "inline": False, "macro": len(self.macros) - 1, "arg": None})
+            cut = r.choice([0, 0, len(top)]) if not self.segdefs else 0
+            top = top[:cut] + pre + top[cut:] if cut == 0 else pre + top
         self.top = top
         # placement of macro definitions: before or after their use (definitions are found in the first pass anyway)
-        self.macros_first = r.random() < 0.7
+        self.macros_first = True if transient else r.random() < 0.7
         return self
 
     # ------------------------------------------------------------------ rendering
@@ -321,6 +334,13 @@ class Gen:
         elif k == "wordlabel":
             w.put(".word ")
             n["span"] = w.put(n["label"].replace("@", ""))
+        elif k == "mbranch":
+            # a branch over a few bytes to a label local to the macro body (three statements)
+            n["span"] = w.put("%s %s" % (n["m"], n["label"]))
+            w.put("\n" + "  " * depth + ".text ")
+            n["span_text"] = w.put('"%s"' % ("t" * n["n"]))
+            w.put("\n" + "  " * depth + n["label"] + ": ")
+            n["span_nop"] = w.put("nop")
         elif k == "align":
             w.put(".align ")
             n["span"] = w.put(str(n["n"]))
@@ -452,6 +472,10 @@ class Exec:
             if not (-128 + self.branch_slack <= off <= 127 - self.branch_slack):
                 self.bad_branches.append(n)
             self.emit(n["span"], [BRANCH[n["m"]], off & 0xFF])
+        elif k == "mbranch":
+            self.emit(n["span"], [BRANCH[n["m"]], n["n"]])
+            self.emit(n["span_text"], [ord("t")] * n["n"])
+            self.emit(n["span_nop"], [0xEA])
         elif k == "abslabel":
             v = self.label_value(n["label"])
             self.emit(n["span"], [ABS[n["m"]], v & 0xFF, (v >> 8) & 0xFF])
@@ -500,11 +524,11 @@ class Exec:
             self.with_scope(("imp", n["id"]), lambda: self.run_items(body, dict(env, const=n["param"])))
 
 
-def build(rng, size=None, branch_slack=0, no_branch=False):
+def build(rng, size=None, branch_slack=0, no_branch=False, transient=False):
     """-> (Gen with .files, label values).  branch_slack: every branch keeps that many bytes of slack to the limits of its
     range (so that a few inserted bytes cannot push it out of range); no_branch: the program has no branch instructions."""
     for _ in range(200):
-        g = Gen(rng, size, {"no_branch": no_branch}).program()
+        g = Gen(rng, size, {"no_branch": no_branch, "transient": transient}).program()
         g.render()
         # pass 1: label values and set-pc addresses (independent of the macro attribution mode)
         e1 = Exec(g, False)
